@@ -26,7 +26,9 @@ RULE = ('cases = PELs with primary/secondary SRC sections: all 32-bit word patte
         'out-of-domain inputs (word count >= 10, PCE size < 24, non-ASCII text) for the correspondence only; non-trivial = an SRC with at least one '
         'callout or with "Error Details"; distinct by bytes')
 SRC_FIX = {'xsrc': ('echo',), 'ysrc': ('raises',), 'o8d00': ('echo',), 'oab00': ('raises',), 'occ00': ('text', 'null'), 'bsrc': ('echo',)}
-CO_FIX = {'x': ('table', {'PROC0001': ['line one', 'line "two"'], 'PROC0002': []})}
+# callout parsers: x fine; y raises for the procedure PROCBAD! (and knows the others); B raises for every procedure
+CO_FIX = {'x': ('table', {'PROC0001': ['line one', 'line "two"'], 'PROC0002': []}),
+          'y': ('table_raise', {'PROC0001': ['why one'], 'PROC0002': ['why two']}, 'PROCBAD!'), 'b': ('raises',)}
 
 # ---- message registries
 CODES = ['8D34', '8d34', 'AB34', 'CC34', '7734', '2034', '8D10', '8d10', 'AB10', 'CC10', '7710', '2010', '2600']
@@ -143,7 +145,7 @@ def run(tier, seed):
                     if x['callouts']:
                         for c in x['callouts']['callouts']:
                             if c['fru']['flags'] & 0x02 and rng.random() < 0.7:
-                                c['fru']['pn'] = rng.choice([b'BMC0001\0', b'BMC0008\0', b'PROC0001', b'PROC0002', b'PROC0009'])
+                                c['fru']['pn'] = rng.choice([b'BMC0001\0', b'BMC0008\0', b'PROC0001', b'PROC0002', b'PROC0009', b'PROCBAD!', b'PROCBAD!'])
                     secs.append({'kind': 'src', 'hdr': apel.gen_hdr(rng), 'primary': rng.random() < 0.5, 'src': x})
                 p['sections'] = secs
                 ok = True
@@ -178,7 +180,7 @@ def run(tier, seed):
                 for s in p['sections']:
                     for c in (s['src']['callouts'] or {'callouts': []})['callouts']:
                         ck.count('fru flags low nibble %X pce=%d mru=%s' % (c['fru']['flags'] & 0xF, int(bool(c['pce'])), 'n' if not c['mru'] else str(len(c['mru']['items']))))
-                compare(ck, p, data, real, model, spec if ok else None, label='src')
+                compare(ck, p, data, real, model, spec if ok else None, label='src', allow_plugins=allow)
         finally:
             env.uninstall()
     # keep the per-combination histogram compact
